@@ -151,11 +151,12 @@ def rule_3(ctx):
     fn = mm.func('ModelCompiler.extract')
     S = 'Sheet1!'
     named = _cell(S + 'N1', [S + 'A1'])
-    cells = {S + 'A1': _cell(S + 'A1'), S + 'B1': _cell(S + 'B1', [S + 'A1']), S + 'N1': named}
+    cells = {S + 'A1': _cell(S + 'A1'), S + 'B1': _cell(S + 'B1', [S + 'A1']), S + 'N1': named, S + 'C1': _cell(S + 'C1', [S + 'D1']),
+             S + 'D1': _cell(S + 'D1')}
     rng = Rec(cls='pkg:xltypes:XLRange', cells=[[S + 'A1'], [S + 'B1']], name='rng', address_str=S + 'A1:B1')
     before_keys = set(cells)
     before_ids = {k: id(v) for k, v in cells.items()}
-    model, out = _run_extract(ctx, cells, {'nm': named, 'rng': rng}, [S + 'B1', 'nm', 'rng'])
+    model, out = _run_extract(ctx, cells, {'nm': named, 'rng': rng}, [S + 'C1', 'nm', 'rng'])
     if out.end != 'return' or not _is_model(out.value):
         raise Unmodelled(f'extract on the aliasing witness ends in {out.end} {out.value!r}')
     ext = out.value
@@ -169,9 +170,10 @@ def rule_3(ctx):
     shared_n = [k for k, v in ext.get('defined_names').items() if v is named or v is rng]
     ctx.expect(not shared_n, fn, 'extracted defined names are copies', f'defined-name objects are shared with the original: {shared_n}')
     ctx.expect(set(model.get('cells')) == before_keys and all(id(model.get('cells')[k]) == before_ids[k] for k in before_keys)
-               and set(model.get('defined_names')) == {'nm', 'rng'}, fn, 'the original model is left unchanged',
+               and set(model.get('defined_names')) == {'nm', 'rng'} and not model.get('ranges') and not model.get('formulae')
+               and model.get('built') == 0, fn, 'the original model is left unchanged',
                'extract() adds, removes or replaces entries of the original model')
-    ctx.expect({'nm', 'rng'} <= set(ext.get('defined_names')) and {S + 'N1', S + 'A1', S + 'B1'} <= set(ext.get('cells')), fn,
+    ctx.expect({'nm', 'rng'} <= set(ext.get('defined_names')) and {S + 'N1', S + 'A1', S + 'B1', S + 'C1', S + 'D1'} <= set(ext.get('cells')), fn,
                'focused names and their cells are extracted',
                f'focused defined names / their cells are missing: names {sorted(ext.get('defined_names'))}, cells {sorted(ext.get('cells'))}')
     ctx.floor(5, 'aliasing witnesses')
